@@ -63,7 +63,9 @@ def scores(n: int, cols: Optional[int], aseed: int, name: str):
     g = ng._gen(aseed, name)
     shape = (n,) if cols is None else (n, cols)
     gaps = 0.05 + torch.rand(shape, generator=g) * 0.6
-    levels = torch.cumsum(gaps, dim=0) - 0.5
+    # magnitude: mostly O(1) as after initialisation, sometimes what a long search leaves behind
+    # (logits / temperature in the hundreds or thousands: saturated soft-max)
+    levels = (torch.cumsum(gaps, dim=0) - 0.5) * (1, 1, 1, 4, 30)[(aseed // 2) % 5]
     if cols is None:
         perm = torch.randperm(n, generator=g)
         return levels[perm]
